@@ -548,6 +548,8 @@ def run(tier):
     rule_R12(res, prog)
     rule_R13(res, prog)
     rule_R14(res, prog)
+    rule_R15(res, prog)
+    rule_R16(res, prog)
     return res.finish()
 
 
@@ -1069,3 +1071,79 @@ def rule_R14(res, prog):
                                      file=fn.relfile, line=ln)
                     res.instance(rid, "%s:%s ssl->cipher = %s vetted by sslGetCipherSpec" % (fn.name, ln, cu.ftext(r)[:40]), ok, finding=f_)
     res.floor(rid, 10)
+
+
+def rule_R15(res, prog):
+    """'any in-transit change to the hello messages makes the handshake fail' across a HelloRetryRequest: RFC 8446 4.4.1
+    replaces ClientHello1 by the synthetic message_hash = Hash(ClientHello1).  In tls13TranscriptHashReinit the octets copied
+    into that message are the buffer that tls13TranscriptHashFinish() filled in this very function (the hash of the running
+    transcript = ClientHello1), and what is fed back with tls13TranscriptHashUpdate() is that message.  Any other buffer
+    (both sides hold the same zeroes in their early-data snapshot) makes both ends agree on every later hash while
+    ClientHello1 - groups, suites, versions offered - is bound to nothing."""
+    from sa import cfgutil as cu
+    rid = "C07.R15"
+    res.rule(rid, "HelloRetryRequest: the synthetic message_hash binds the hash of ClientHello1 that was just computed")
+    lst = prog.by_name.get("tls13TranscriptHashReinit")
+    if not lst:
+        if prog.defined("USE_TLS_1_3"):
+            raise AnalysisBroken("C07.R15: tls13TranscriptHashReinit vanished")
+        res.floor(rid, 0)
+        return
+    n = 0
+    for fn in lst:
+        fin = None
+        for b, ln, c in fn.calls():
+            if c.get("fn") == "tls13TranscriptHashFinish" and len(c.get("a", [])) >= 2:
+                fin = cu.ftext(strip(c["a"][1]))
+        copies = []
+        for b, ln, c in fn.calls():
+            if c.get("fn") in ("memcpy", "__builtin_memcpy", "__builtin___memcpy_chk") and len(c.get("a", [])) >= 3 and \
+                    "messageHash" in cu.ftext(strip(c["a"][0])):
+                copies.append((ln, cu.ftext(strip(c["a"][1]))))
+        n += 1
+        ok = fin is not None and bool(copies) and all(src == fin for (ln, src) in copies)
+        f_ = None
+        if not ok:
+            f_ = Finding(PROP, rid, fn.name, "message_hash built from another buffer than Hash(ClientHello1)",
+                         "%s:%s tls13TranscriptHashReinit(): the hash of ClientHello1 is finished into %s, but the synthetic message_hash copies %s: "
+                         "both ends then agree on a transcript that does not cover ClientHello1, and a man in the middle can rewrite its "
+                         "supported_groups / cipher suites to steer the negotiation without the Finished check noticing" % (
+                             fn.relfile, copies[0][0] if copies else 0, fin, sorted(set(s for l, s in copies)) or "nothing"),
+                         file=fn.relfile, line=copies[0][0] if copies else 0)
+        res.instance(rid, "tls13TranscriptHashReinit (%s): message_hash = the buffer tls13TranscriptHashFinish filled" % fn.relfile, ok, finding=f_)
+    res.floor(rid, 1)
+
+
+def rule_R16(res, prog):
+    """'negotiated parameters are ones both sides enabled' starts with what `enabled` is: the version list of the session
+    options is what the LAST call of the setter said.  Every function that appends to options->supportedVersions (increments
+    supportedVersionsLen) first resets the length on every path - the client and server setters are siblings and must agree
+    (the server one appended: a list set to {1.3} after {1.1, 1.2} still enabled 1.2)."""
+    from sa import cfgutil as cu
+    rid = "C07.R16"
+    res.rule(rid, "session option setters replace the supported-version list (length reset before the append loop), client and server alike")
+    n = 0
+    for fn in sorted(prog.functions.values(), key=lambda f: f.qname):
+        if not fn.blocks or not fn.relfile.startswith("matrixssl/") or "/test/" in fn.relfile:
+            continue
+        incs = []
+        for b in fn.blocks:
+            for i, ln, x in cu.block_exprs(b):
+                for m in walk(x):
+                    if m.get("k") == "un" and m.get("op") in ("post++", "pre++") and cu.ftext(strip(m["e"]) or {}).endswith("->supportedVersionsLen"):
+                        incs.append((ln, x, cu.ftext(strip(m["e"]))))
+        for (ln, x, txt) in incs:
+            n += 1
+
+            def resets(y, txt=txt):
+                return any(q.get("k") == "bin" and q["op"] == "=" and cu.ftext(strip(q["l"]) or {}) == txt and
+                           (strip(q["r"]) or {}).get("k") == "int" and strip(q["r"])["v"] == 0 for q in walk(y))
+            esc = cu.escapes(fn, (fn.entry, None), resets, target_expr=lambda y, x=x: y is x)
+            f_ = None
+            if esc is not None:
+                f_ = Finding(PROP, rid, fn.name, "version list appended to instead of replaced",
+                             "%s:%s %s(): %s++ is reachable without %s = 0: a second call on the same options keeps versions of the first call "
+                             "enabled (after {1.1, 1.2} and then {1.3} the server still negotiates TLS 1.2)" % (fn.relfile, ln, fn.name, txt, txt),
+                             file=fn.relfile, line=ln)
+            res.instance(rid, "%s:%s %s reset before the append loop" % (fn.name, ln, txt), esc is None, finding=f_)
+    res.floor(rid, 2)
